@@ -170,20 +170,33 @@ def run(ctx):
     src = ast.unparse(pc.node)
     objn = (X.names_assigned_from(pc.node, 'super().clone(') or ['obj'])[0]
     checks = {
-        'rescope default': X.has(src, "kwargs.setdefault('rescope_symbols', True)"),
-        'escalates to Scope.clone': X.has(src, 'obj = super().clone(**kwargs)'),
-        'contained units cloned with new parent': X.has(src, "node.clone(parent=obj, rescope_symbols=kwargs['rescope_symbols'])"),
-        'contained units re-parented': X.has(src, 'node._reset_parent(obj)'),
-        'registered in parent scope': src.rstrip().endswith(f'return {objn}') and X.has(src, 'obj.register_in_parent_scope()'),
+        'rescope default': ["kwargs.setdefault('rescope_symbols', True)"],
+        'escalates to Scope.clone': ['obj = super().clone(**kwargs)'],
+        'contained units cloned with new parent': ["node.clone(parent=obj, rescope_symbols=kwargs['rescope_symbols'])"],
+        'contained units re-parented': ['node._reset_parent(obj)'],
+        'registered in parent scope': ['obj.register_in_parent_scope()'],
     }
+    def stores_key(key):
+        def test(tree):
+            for n in ast.walk(tree):
+                if isinstance(n, ast.Subscript) and isinstance(n.ctx, ast.Store) and isinstance(n.slice, ast.Constant) and n.slice.value == key:
+                    return True
+                if isinstance(n, ast.Call) and isinstance(n.func, ast.Attribute) and n.func.attr in ('setdefault', 'update') and (
+                        any(isinstance(a, ast.Constant) and a.value == key for a in n.args) or any(k_.arg == key for k_ in n.keywords)
+                        or any(isinstance(d, ast.Dict) and any(isinstance(kk, ast.Constant) and kk.value == key for kk in d.keys) for d in n.args)):
+                    return True
+            return False
+        return test
     for k, v in checks.items():
-        (ctx.judge('R3', f'ProgramUnit.clone:{k}') if v else
-         ctx.violation('R3', f'ProgramUnit.clone:{k}', pc.where, f'clone path lost: {k}'))
+        ctx.wired('R3', f'ProgramUnit.clone:{k}', pc.where, src, v, f'clone path lost: {k}',
+                  reshaped_if=stores_key('rescope_symbols') if k == 'rescope default' else None)
+    (ctx.judge('R3', 'ProgramUnit.clone:returns the clone') if src.rstrip().endswith(f'return {objn}') else
+     ctx.violation('R3', 'ProgramUnit.clone:returns the clone', pc.where, 'clone does not return the object built by Scope.clone'))
     scl = m.get_function('loki/types/scope.py', 'Scope.clone')
     src = ast.unparse(scl.node)
-    ok = X.has(src, "kwargs['symbol_attrs'] = self.symbol_attrs.clone(parent=kwargs.get('parent'))") and X.has(src, "kwargs['rescope_symbols'] = True")
-    (ctx.judge('R3', 'Scope.clone: table cloned + forced rescoping') if ok else
-     ctx.violation('R3', 'Scope.clone:symbol_attrs', scl.where, 'the symbol table is shared with / not re-parented for the clone'))
+    ctx.wired('R3', 'Scope.clone:symbol_attrs', scl.where, src,
+              ["kwargs['symbol_attrs'] = self.symbol_attrs.clone(parent=kwargs.get('parent'))", "kwargs['rescope_symbols'] = True"],
+              'the symbol table is shared with / not re-parented for the clone')
 
     # ---- R4
     ctx.rule('R4', 'ProgramUnit.clone: every re-parenting statement is followed by obj.rescope_symbols() under guards it implies')
